@@ -155,6 +155,7 @@ def run(ctx, anchors=None):
     entry = common.main_of(fb, A["main_file"])
     main = common.func_calling(fb, A["main_file"], A["run"])     # the driver: main itself or the worker it delegates to
     cfg = main.cfg()
+    common.require_names(main, ["quiet", "verbose", "pipe_in", "pipe_out"], "R08")
     ctx.rule("R08.1", "no exception type escapes btcdeb's main() (explicit throws, minus enclosing handlers)")
     ctx.rule("R08.1b", "every tinyformat format string is a literal (so format errors cannot occur)")
     ctx.rule("R08.2", "on the piped success path stdout receives print_stack(raw) and nothing else")
